@@ -467,44 +467,106 @@ def uses_svds(job):
     return any(isinstance(v, dict) and v.get('__est__') in SVDS_FAMILY for v in (job.get('params') or {}).values())
 
 
+SPECTRAL_ATTRS = {'singular_values_', 'singular_vectors_left_', 'singular_vectors_right_', 'embedding_', 'embedding_row_',
+                  'embedding_col_', 'scores_', 'scores_row_', 'scores_col_'}
+NN_DERIVED_ATTRS = {'labels_', 'labels_row_', 'labels_col_', 'probs_', 'probs_row_', 'probs_col_', 'links_'}
+DEGENERATE = 1e-7       # two singular values closer than this (relative) form one cluster; below it a value vanishes
+SUBSPACE = 1e-8         # projectors onto a complete singular subspace must agree within this
+
+
+def _as_array(c):
+    """canonical float array -> numpy array, or None"""
+    if not (isinstance(c, dict) and 'nd' in c and str(c['nd']).startswith('float')):
+        return None
+    try:
+        return np.array([float.fromhex(t) for t in c['v']], dtype=float).reshape(c['shape'])
+    except (TypeError, ValueError):
+        return None
+
+
+def _spectral_object_pattern(sa, sb):
+    """Are the differences between two fitted states of an svds-based object (SVD, GSVD, PCA, HITS, LanczosSVD) exactly
+    what SciPy's unseeded ARPACK restarts can cause?  i.e. only the spectral outputs differ, all of them float arrays of
+    equal shape, the singular values agree, and
+      * without a repeated / vanishing singular value: every difference is of the order of the rounding error;
+      * with one: the projectors onto every *complete* singular subspace agree (only the basis inside a repeated
+        value, and the vectors of the trailing cluster, which the truncation may cut, are free).
+    Returns (explained, maxdiff)."""
+    if not isinstance(sa, dict) or not isinstance(sb, dict):
+        return False, None
+    diff = {k for k in set(sa) | set(sb) if sa.get(k) != sb.get(k)}
+    if not diff or not diff <= (SPECTRAL_ATTRS | {'solver'}):
+        return False, None
+    if not diff & {'singular_vectors_left_', 'singular_vectors_right_', 'solver'}:
+        return False, None      # the vectors ARPACK returned are the same: nothing a restart could explain
+    worst = 0.0
+    for k in diff - {'solver'}:
+        xa, xb = _as_array(sa.get(k)), _as_array(sb.get(k))
+        if xa is None or xb is None or xa.shape != xb.shape:
+            return False, None
+        worst = max(worst, float(np.max(np.abs(xa - xb) / (1 + np.abs(xa)))) if xa.size else 0.0)
+    inner_a, inner_b = sa, sb
+    if 'solver' in diff:
+        na, nb = sa.get('solver'), sb.get('solver')
+        if not (isinstance(na, dict) and isinstance(nb, dict) and na.get('obj') == nb.get('obj') == 'LanczosSVD'):
+            return False, None
+        ok, w = _spectral_object_pattern(na.get('state'), nb.get('state'))
+        if not ok:
+            return False, None
+        worst = max(worst, w or 0.0)
+    if 'singular_values_' not in sa and isinstance(sa.get('solver'), dict):
+        inner_a, inner_b = sa['solver'].get('state') or {}, (sb.get('solver') or {}).get('state') or {}
+    va, vb = _as_array(inner_a.get('singular_values_')), _as_array(inner_b.get('singular_values_'))
+    if va is None or vb is None or va.shape != vb.shape or va.ndim != 1:
+        return False, None
+    if np.max(np.abs(va - vb) / (1 + np.abs(va)), initial=0.0) > ROUNDOFF:
+        return False, None
+    order = np.argsort(-va)
+    clusters, cur = [], [int(order[0])] if len(order) else []
+    for i in order[1:]:
+        if abs(va[cur[-1]] - va[i]) <= DEGENERATE * (1 + abs(va[i])):
+            cur.append(int(i))
+        else:
+            clusters.append(cur)
+            cur = [int(i)]
+    if cur:
+        clusters.append(cur)
+    degenerate = any(len(c) > 1 for c in clusters) or bool(np.any(np.abs(va) < DEGENERATE))
+    if not degenerate:
+        return (0.0 < worst <= ROUNDOFF), worst
+    for name in ('singular_vectors_left_', 'singular_vectors_right_'):
+        ua, ub = _as_array(inner_a.get(name)), _as_array(inner_b.get(name))
+        if ua is None or ub is None or ua.shape != ub.shape or ua.ndim != 2:
+            return False, None
+        for c in clusters[:-1]:                     # complete subspaces (the trailing cluster may be cut)
+            if abs(va[c[0]]) < DEGENERATE:
+                continue
+            pa, pb = ua[:, c] @ ua[:, c].T, ub[:, c] @ ub[:, c].T
+            if np.max(np.abs(pa - pb), initial=0.0) > SUBSPACE:
+                return False, None
+    return True, worst
+
+
 def arpack_restart_pattern(job, a, b):
-    """The signature of scipy's unseeded ARPACK restarts inside svds: a repeated / vanishing singular value, or
-    differences of the order of the rounding error in every continuous output (discrete outputs may then flip)."""
-    if not uses_svds(job) or a.get('state') is None or b.get('state') is None:
+    """Is the difference between two results of one job the recorded SciPy limitation (svds does not forward its rng to
+    the restarts of ARPACK) and nothing else?  Any differing attribute outside the spectral outputs (and, for the
+    nearest-neighbour classes, outside what is computed from the embedding object), any structural difference, any
+    difference of a complete singular subspace makes this False: the difference is then an ordinary violation."""
+    if job.get('kind') != 'est' or a.get('outcome') != 'ok' or b.get('outcome') != 'ok':
         return False
-    if degenerate_spectrum(a, b):
-        return True
-    m = _maxdiff(a['state'], b['state'])
-    return m is not None and m <= ROUNDOFF
-
-
-def _spectra(v, out):
-    if isinstance(v, dict):
-        for k, x in v.items():
-            if k in ('singular_values_', 'eigenvalues_') and isinstance(x, dict) and 'v' in x:
-                try:
-                    out.append([float.fromhex(t) for t in x['v']])
-                except (TypeError, ValueError):
-                    pass
-            else:
-                _spectra(x, out)
-    elif isinstance(v, list):
-        for x in v:
-            _spectra(x, out)
-
-
-def degenerate_spectrum(*results):
-    """Does a fitted state hold a repeated (or vanishing) singular value / eigenvalue?  Then the vectors ARPACK
-    returns are not determined by the matrix: they depend on its restart vectors."""
-    for r in results:
-        sp = []
-        _spectra(r.get('state'), sp)
-        for vals in sp:
-            vs = sorted(abs(x) for x in vals)
-            if any(x < 1e-7 for x in vs):
-                return True
-            if any(abs(a - b) <= 1e-7 * (1 + abs(b)) for a, b in zip(vs, vs[1:])):
-                return True
+    sa, sb = a.get('state'), b.get('state')
+    if not isinstance(sa, dict) or not isinstance(sb, dict):
+        return False
+    if job['cls'] in SVDS_FAMILY:
+        return _spectral_object_pattern(sa, sb)[0]
+    if job['cls'] in ('NNClassifier', 'NNLinker'):
+        diff = {k for k in set(sa) | set(sb) if sa.get(k) != sb.get(k)}
+        if 'embedding_method' not in diff or not diff <= (NN_DERIVED_ATTRS | {'embedding_method'}):
+            return False
+        ea, eb = sa.get('embedding_method'), sb.get('embedding_method')
+        if not (isinstance(ea, dict) and isinstance(eb, dict) and ea.get('obj') == eb.get('obj') and ea.get('obj') in SVDS_FAMILY):
+            return False
+        return _spectral_object_pattern(ea.get('state'), eb.get('state'))[0]
     return False
 
 
